@@ -20,7 +20,10 @@ def run(tier, seed):
             size = (0, 0, 1, 0, 1, 2 if tier != "quick" else 1)[k % 6]
             term = "1" if k % 4 == 3 else "0"
             first = seed * 1000000 + fi * 100000 + k * per
-            cases.append(([exe, str(first), str(per), str(size), term], "%s/%d" % (fl, k)))
+            # model family options outside the seed-to-model map: bursts of simultaneous events (chains of up to 12 zero-delay hops),
+            # LPs that never call SetState() (library generator only)
+            env = {"VM_FORCE_TS": "3", "VM_FORCE_RNG": "0"} if k % 8 == 5 else {"VM_STATELESS": "1", "VM_FORCE_RNG": "1"} if k % 8 == 6 else None
+            cases.append({"cmd": [exe, str(first), str(per), str(size), term], "tag": "%s/%d%s" % (fl, k, "" if not env else "/" + ",".join(sorted(env))), "env": env})
     for res in vlib.run_cases(cases, parallel=16, timeout=900):
         rec, anomaly = vlib.absorb(chk, res)
         if anomaly:
